@@ -44,7 +44,7 @@ TIERS = {
     "thorough": {"shards": 16, "cases": 100000, "calls": 40, "timeout": 3000},
 }
 FLOORS = {
-    "quick": {"counts": {"payloads_lexed": 30000, "routed_values_checked": 25000,
+    "quick": {"counts": {"payloads_lexed": 30000, "formatter_reconfigured_in_place": 150, "comment_text_with_line_breaks": 250, "routed_values_checked": 25000,
                          "number_contract_evals": 80000, "nonfinite_rejections": 1500,
                          "direct_formatter_calls": 2500}, "keys": 600},
     "thorough": {"counts": {"payloads_lexed": 1500000, "number_contract_evals": 4000000}, "keys": 1200},
